@@ -253,7 +253,7 @@ def trace_selftest(ctx, trace, cfg):
 
 
 def run_stress(ctx, binary, cases, mode):
-    res = ctx.run_engine(binary, [mode], cases, shards=min(8, len(cases)), timeout=3000)
+    res = ctx.run_engine(binary, [mode], cases, shards=min(4, len(cases)), timeout=3000)
     ctx.log("%s workloads: %d run" % (mode, len(cases)))
     traces = []
     for c, r in zip(cases, res):
